@@ -1253,6 +1253,10 @@ class Engine:
             return tuple(args[0])
         if n == "list" and len(args) == 1 and isinstance(args[0], (tuple, list)):
             return list(args[0])
+        if n in ("list", "tuple", "sorted") and len(args) == 1 and not kw:
+            items = self.concrete_iter(args[0])
+            if items is not None and (n != "sorted" or _concrete(items)):
+                return {"list": list, "tuple": tuple, "sorted": sorted}[n](items)
         if n == "dict" and not args:
             return dict(kw)
         if n in EXC_PARENT or n == "BaseException":
